@@ -17,7 +17,16 @@ ASSUMPTIONS = ["'sleeping' is read as `sensor.is_smart_sleep_node` before the li
                "was enqueued (threaded flavour, followed by monitors.Tracker)",
                "node 0 (the gateway itself, target of the TCP watchdog probe) never announces smart sleep",
                "float(), awesomeversion are oracles fed with the library's real verdicts"]
-THEOREMS_DOC = {}
+THEOREMS_DOC = {
+    'C07_line_header': "node id / command of encode m (first / third ';' field) are m_node m / m_type m for EVERY message, whatever its payload", 'C07_wake_announcements': 'the dispatcher reaches handle_heartbeat_response / handle_pre_sleep_notification exactly for internal sub-type 22 (2.0, 2.1) / 32 (2.2), never in 1.4/1.5 (finite check of the generated registry)',
+    'C07_reachable_invariants': 'every reachable state (5 configurations, any history of lines, pumps, controller calls) satisfies Inv, QInv (withheld strings are addressed to the node holding them), CInv (children keyed by id)',
+    'C07_route_withholds': "a non-stream, non-presentation message for a known sleeping node is not returned: encode m is appended at the END of that node's queue, every other node and field identical", 'C07_route_passes': 'unknown node, node not sleeping, or stream message: returned, state untouched',
+    'C07_route_drops_presentation': 'a message of presentation type is never returned by routing',
+    'C07_others_not_delayed': 'routing changes no node except the addressee, and the addressee only when it sleeps',
+    'C07_logic_sends_to_sleeping_only_on_wake': "one dispatcher call, both flavours: every string sent, queued as send job or returned as reply that is addressed to a node sleeping before the call is of stream type or the line is that node's wake-up announcement", 'C07_step_sends_to_sleeping_only_on_wake': 'every history, any next step: what the step hands to the transport is an earlier queued send job or obeys the rule; what it queues is the arriving line or a send obeying the rule',
+    'C07_queued_sends_have_allowed_origin': "threaded flavour, whole histories (erasable ghost of enqueue state/cause): every waiting send job addressed to a node that slept when it was queued is a stream response or part of that node's wake-up burst", 'C07_set_child_value_sleeping_silent': 'set_child_value on a sleeping node queues, logs and sends nothing; it only stores the desired value',
+    'C07_release_only_on_wake': "in every step every hold queue is prefix-extended, except in the step processing that node's own wake-up announcement", 'C07_logic_release_only_on_wake': 'the same for one dispatcher call',
+    'C07_sleeping_changes_only_on_wake': 'a node never stops sleeping and starts only in the step processing its own announcement'}
 SCOPE = ["S", "extra", "jobs"]
 
 
